@@ -49,6 +49,7 @@ ASSUMPTIONS = [
     "with permessage-deflate the frame/message limits are compared by the library with WIRE (compressed) lengths, on receive and on send; that reading is adopted: a message whose wire size is within maxMessagePayloadSize but whose inflated size is larger may be delivered (counted as grey_inflated_over_message_limit), it must then be delivered intact",
     "send side: only maxMessagePayloadSize is asserted (maxFramePayloadSize is documented as a receive option and is ignored by sendMessage - recorded, not asserted); with compression a refusal is demanded only when the written wire size would exceed the limit; any exception type counts as 'an error' (class recorded)",
     "send side with compression and context takeover: a message that was REFUSED must not leave traces in the compression context - the following within-limit messages must inflate to what was passed to sendMessage at an RFC 7692 peer (clause 'messages at or below the limit are unaffected')",
+    "the raw-octet peer is a CONFORMING RFC 7692 sender: it keeps its compression context across messages only when no-context-takeover was not negotiated for its direction (an earlier version of this check did not and produced zlib errors that were the harness's fault); a frame whose declared payload is never supplied (2^40 / 2^63-1) is only generated where a configured limit stops the stream at its header",
     "decompression limit: an over-limit message may either fail the connection (any close code; 1009 recorded) or be delivered INTACT (today the cap is applied per inflate call, so a message trickled in small reads passes) - only truncated/altered deliveries, corrupted or lost later messages, disturbed within-limit messages and exceptions reaching the framework are violations; max_message_size None/0 = no limit",
     "control frame payloads are kept <= the frame limit (whether maxFramePayloadSize applies to control frames is not stated)",
     "after a failure in closing-handshake mode only 'nothing over-limit / nothing unexpected is delivered and no exception escapes' is asserted; how the closing handshake then completes belongs to C05",
@@ -170,6 +171,8 @@ class Fr:
 def build_stream(case, conn):
     """-> (frames, messages).  messages[i] = dict(bin, payload (app), wire_len, frame_lens, complete_at, huge)."""
     rng = random.Random(case.get("mseed", 0))
+    if conn.pmce and case.get("peer_takeover") and case.get("rx_reset"):
+        raise RuntimeError("harness: peer_takeover with a negotiated no-context-takeover (peer -> endpoint) is not a conforming peer")
     deflater = P.PeerDeflate(takeover=bool(case.get("peer_takeover", False))) if conn.pmce else None
     frames, messages = [], []
     lay_lim = int(case.get("lay_lim", 0))
@@ -332,6 +335,8 @@ def _run_recv(case, R, conn):
 
     # ---- 1. everything before the offending frame
     upto = len(frames) if off is None else off
+    if any(fr.payload is None for fr in frames[:upto]):
+        raise RuntimeError("harness: a frame whose payload is never supplied lies before the first over-limit frame (%r)" % (_brief(case),))
     units = []
     if seg in ("frame", "split"):
         for fr in frames[:upto]:
@@ -512,10 +517,13 @@ def _run_decomp(case, R, conn):
              "sent": [len(m["payload"]) for m in messages], "delivered": [len(p) for _, p in conn.deliveries()],
              "close_frames": [f["payload"][:2].hex() for f in conn.close_frames()]}
         d.update(extra or {})
-        R.violation("C16/pmce-deflate/%s/%s" % (key, role), what, d, case)
+        d["role"] = role
+        # the mechanism lives in the PMCE class shared by both roles: role is in the detail, not in the key
+        R.violation("C16/pmce-deflate/%s" % key, what, d, case)
 
     if ep.escaped:
-        viol("exception-escaped", "exception reached the framework while compressed messages were received with max_message_size=%r: %s"
+        viol("exception-escaped/%s" % type(ep.escaped[0].exc).__name__,
+             "exception reached the framework while compressed messages were received with max_message_size=%r: %s"
              % (case.get("D"), ep.escaped[0]))
     got = conn.deliveries()
     i = 0
@@ -535,8 +543,8 @@ def _run_decomp(case, R, conn):
                 R.count("grey_decomp_over_limit_delivered_intact")
             elif D and len(p) == D:
                 R.count("decomp_at_limit_intact")
-            if any(j < i for j in over_idx):
-                R.count("decomp_followups_compared")
+            if D and any(len(messages[j]["payload"]) >= D for j in range(i)):
+                R.count("decomp_followups_compared")       # a message after an at/over-limit one arrived intact
             i += 1
             continue
         bad = True
@@ -613,7 +621,8 @@ def _run_send(case, R, conn):
     def viol(key, what, extra=None):
         d = {"case": _brief(case), "escaped": [repr(e) for e in ep.escaped][:3]}
         d.update(extra or {})
-        R.violation("C16/send/%s/%s/%s" % (role, fam, key), what, d, case)
+        d["role"] = role
+        R.violation("C16/send/%s/%s" % (fam, key), what, d, case)      # sendMessage is role-independent code: role is in the detail
 
     payloads = []
     for si, s in enumerate(case["sends"]):
@@ -934,7 +943,7 @@ def gen_random(tier, seed, n):
                     sz = max(sz, 1)
                 knd = rng.choice(["rand", "text"] + (["rep"] if pm else []))
                 m = {"kind": knd, "size": sz, "seed": rng.getrandbits(30), "bin": knd != "text", "layout": rng.choice(P.LAYOUTS)}
-                if rng.random() < 0.12:
+                if rng.random() < 0.12 and (F or M):       # a never-supplied payload needs a limit that stops the stream at its header
                     m["huge"] = rng.choice(["huge", "hugemax"])
                     m["size"] = min(sz, 500)
                 if rng.random() < 0.3:
@@ -944,7 +953,10 @@ def gen_random(tier, seed, n):
             cases.append({"fam": "recv", "pmce": pm, "role": role, "fbd": fbd, "F": F, "M": M, "lay_lim": rng.choice([x for x in (F, M) if x] or [L]),
                           "cls": "random", "msgs": msgs, "seg": rng.choice(["frame", "split", "msg", "mtu"] if big else ["frame", "split", "msg", "bytewise", "random", "whole", "mtu"]),
                           "hdr_mode": rng.choice(["alone", "glued", "bytewise"]), "mseed": rng.getrandbits(30),
-                          "rx_reset": bool(pm and rng.random() < 0.3), "peer_takeover": bool(pm and rng.random() < 0.5), "after": True})
+                          "rx_reset": False, "peer_takeover": False, "after": True})
+            if pm:      # a conforming peer keeps its context only when no-context-takeover was NOT negotiated for its direction
+                cases[-1]["rx_reset"] = rng.random() < 0.3
+                cases[-1]["peer_takeover"] = (not cases[-1]["rx_reset"]) and rng.random() < 0.6
         elif fam == "decomp":
             D = rng.choice([L, L, L, None])
             base = D or 500
@@ -957,7 +969,8 @@ def gen_random(tier, seed, n):
             tot = sum(m["size"] for m in msgs)
             cases.append({"fam": "decomp", "pmce": True, "role": role, "fbd": fbd, "D": D, "F": 0, "M": 0, "lay_lim": base, "cls": "random",
                           "msgs": msgs, "seg": rng.choice(["frame", "whole", "mtu", "random"] + (["bytewise"] if tot < 4000 else [])),
-                          "peer_takeover": rng.random() < 0.6, "rx_reset": rng.random() < 0.3, "mseed": rng.getrandbits(30)})
+                          "peer_takeover": False, "rx_reset": rng.random() < 0.3, "mseed": rng.getrandbits(30)})
+            cases[-1]["peer_takeover"] = (not cases[-1]["rx_reset"]) and rng.random() < 0.7
         else:
             pm = rng.random() < 0.5
             sends = []
